@@ -23,7 +23,7 @@ WTESTS = {"groups": ['parse'], "tests": ['tests/dec'], "counts": ["C01.parse."]}
 REQUIRED = {"orientation:forward": 20, "orientation:reverse": 20, "alias-alias-pair": 20, "self-pair": 5, "unknown-daughter": 20, "self-conjugate-daughter": 20,
             "aliased-daughter": 20, "source-from-CopyDecay": 10, "cdecay-without-source": 10, "decay+cdecay-one-name": 10, "decay+cdecay>=2-names": 5,
             "chargeconj-statements:1-2": 10, "chargeconj-statements>=6": 5, "switch-off:>3-tables+applicable": 10, "cdecay-before-source-block": 10,
-            "chargeconj-after-use": 10, "tables>=4": 20, "photos-and-params-in-source": 20, "corpus-cdecay-statements": 100, "real-name-pair": 20}
+            "chargeconj-after-use": 10, "tables>=4": 20, "photos-and-params-in-source": 20, "corpus-cdecay-statements": 100, "switch:off-then-on-same-instance": 20, "real-name-pair": 20}
 ASSUMPTIONS = ["each name is the subject of at most one CDecay; ChargeConj declarations are consistent (a partial involution); no ChargeConj pairs an alias with a real self-conjugate name",
                "relative order of derived tables is not compared"]
 
@@ -202,6 +202,22 @@ def check(ctx, text, stmts, wit, workload, um=(), files=None):
             ctx.violate(mech + (":cc-on" if include_cc else ":cc-off"), msg, w)
         if not include_cc and len(exp_on["tables"]) > 3 and cd:
             ctx.hit("switch-off:>3-tables+applicable")
+        for mech, msg in snapshot.compare_globals(p, exp):
+            ctx.violate("with-cdecay:" + mech, msg, w)
+        if not include_cc and files is None and ctx.rng.random() < 0.5:
+            # the switch is per call: the same instance parsed again with conjugates enabled must give the conjugated tables
+            ctx.hit("switch:off-then-on-same-instance")
+            import warnings  # noqa: PLC0415
+
+            def on_again(p=p):
+                with warnings.catch_warnings():
+                    warnings.simplefilter("ignore")
+                    p.parse(include_ccdecays=True)
+                return snapshot.compare_tables(p, exp_on)
+
+            ok2, bad = ctx.guard("parse-on-after-off", w, on_again)
+            for mech, msg in (bad or []):
+                ctx.violate(mech + ":cc-on-after-off", msg, w)
     return exp_on
 
 
